@@ -242,7 +242,9 @@ var props = map[string]propFn{}
 func workerMain(args map[string]string) {
 	// hard address-space limit: a runaway allocation kills the worker instead of the sandbox
 	lim := uint64(12 << 30)
-	_ = syscall.Setrlimit(syscall.RLIMIT_AS, &syscall.Rlimit{Cur: lim, Max: lim})
+	if !raceEnabled { // the race detector reserves terabytes of shadow address space
+		_ = syscall.Setrlimit(syscall.RLIMIT_AS, &syscall.Rlimit{Cur: lim, Max: lim})
+	}
 	w := &W{Prop: args["prop"], Tier: args["tier"], out: bufio.NewWriterSize(os.Stdout, 1<<16),
 		hashes: map[uint64]struct{}{}, findKey: map[string]int{}, Only: -1, hashDir: args["hashdir"]}
 	w.stats.Counters = map[string]int{}
@@ -326,6 +328,10 @@ func superviseMain(args map[string]string) {
 			caseTimeout = d
 		}
 	}
+	gomax := "2"
+	if g := args["gomaxprocs"]; g != "" {
+		gomax = g
+	}
 	start := time.Now()
 	hashDir, err := os.MkdirTemp("", "verif-hashes-")
 	if err != nil {
@@ -338,6 +344,9 @@ func superviseMain(args map[string]string) {
 	res.Seed, _ = strconv.ParseUint(seed, 10, 64)
 	res.Stats.Counters = map[string]int{}
 	self, _ := os.Executable()
+	if b := args["bin"]; b != "" {
+		self = b // e.g. the same harness built with -race
+	}
 
 	var wg sync.WaitGroup
 	for sh := 0; sh < nsh; sh++ {
@@ -348,7 +357,7 @@ func superviseMain(args map[string]string) {
 			for attempt := 0; attempt < 200; attempt++ {
 				cmd := exec.Command(self, "worker", "--prop="+prop, "--tier="+tier, "--seed="+seed,
 					fmt.Sprintf("--shard=%d", sh), fmt.Sprintf("--nshards=%d", nsh), fmt.Sprintf("--from=%d", from), "--hashdir="+hashDir)
-				cmd.Env = append(os.Environ(), "GOMEMLIMIT=6GiB", "GOMAXPROCS=2")
+				cmd.Env = append(os.Environ(), "GOMEMLIMIT=6GiB", "GOMAXPROCS="+gomax, "GORACE=halt_on_error=1")
 				stdout, _ := cmd.StdoutPipe()
 				var errb strings.Builder
 				cmd.Stderr = &limitedWriter{w: &errb, n: 1 << 16}
@@ -425,6 +434,10 @@ func superviseMain(args map[string]string) {
 				kind, key := "crash", "crash@"+firstLine(errb.String())
 				if timedOut {
 					kind, key = "timeout", "timeout-without-hook"
+				}
+				if strings.Contains(errb.String(), "DATA RACE") {
+					kind = "data-race"
+					key = "data-race@" + raceSite(errb.String())
 				}
 				mu.Lock()
 				res.Crashes++
@@ -548,4 +561,13 @@ func (l *limitedWriter) Write(p []byte) (int, error) {
 		l.w.Write(p[:k])
 	}
 	return len(p), nil
+}
+
+// raceSite names the first repository function in a race detector report.
+func raceSite(report string) string {
+	fr := repoFrames(report)
+	if len(fr) > 0 {
+		return fr[0]
+	}
+	return "unknown"
 }
